@@ -120,7 +120,8 @@ def completeElems (o : Oracle) (elem : Shape) (elemCtx : Bool) :
   | [], _, _, d => ([], d)
   | v :: rest, p, i, d =>
     let r :=
-      if !elemCtx && elem.nn && v.isNull then (Out.null, lift (·.addErr p illTypedScalarElem) d)
+      if !elemCtx && elem.nn && v.isNull then
+        (Out.null, if rest.any V.isNull then d else lift (·.addErr p elementIsNull) d)
       else completeValue o elem v (if elemCtx then p ++ [.idx i] else p) d
     let rs := completeElems o elem elemCtx rest p (i + 1) r.2
     (r.1 :: rs.1, rs.2)
